@@ -341,7 +341,7 @@ class Sim:
         chain.append(blk)
         return blk
 
-    def prepare_tx(self, name, n_ins, outs, chain, parents=()):
+    def prepare_tx(self, name, n_ins, outs, chain, parents=(), only_parents=False):
         '''A transaction that is not in a block yet (mempool): spends unspent outputs of the
         given chain and/or outputs of the parent prepared transactions.'''
         from electrumx.lib.tx import Tx, TxInput, TxOutput
@@ -351,8 +351,11 @@ class Sim:
         rins, ins = [], []
         for i in range(n_ins):
             taken = {id(x) for x in self.reserved} | {id(x) for x in rins}
-            cands = [o for o in self.utxos(chain) + [o for p in parents for o in p.outs if o.spendable]
-                     if id(o) not in taken]
+            pool = ([] if only_parents else self.utxos(chain)) + [o for p in parents for o in p.outs if o.spendable]
+            cands = []
+            for o in pool:
+                if id(o) not in taken and all(o is not x for x in cands):
+                    cands.append(o)
             if not cands:
                 continue
             o = cands[eng.choice(f'{name}_in{i}', len(cands))]
